@@ -58,7 +58,7 @@ def snap_token(isd):
   return tok([(r["rid"], r["leaves"], r["containers"], r["digest"]) for r in project_isd(isd, False) if r["paints"]])
 
 
-NSPECIAL = 14
+NSPECIAL = 15
 
 
 def special_docs(rng, index):
@@ -142,13 +142,23 @@ def special_docs(rng, index):
   d14["b"], d14["e"] = [N, N, N, N, N], [10, N, N, N, N]               # only ends: the body and the region end together
   d14["re"] = [10]
   docs.append(d14)
+  # d15: <initial> elements that restate the nominal initial value of every property (the last token of each property in the
+  # catalogue is that value where the catalogue has it), regions placed by tts:origin: restating a default is not a no-op for
+  # every property (tts:position takes precedence over tts:origin), and every copy of the document must carry it
+  d15 = json.loads(json.dumps(base))
+  d15["rstyles"] = [[["Origin", index["Origin"][0]]], [["Origin", index["Origin"][1]], ["BackgroundColor", bgtok]]]
+  d15["initials"] = [[prop, toks[-1]] for prop, toks in sorted(index.items()) if prop not in ("Display", "ShowBackground")]
+  docs.append(d15)
   for d in docs:
     for key, n in (("styles", d["n"]), ("anim_styles", d["n"]), ("rstyles", d["nr"]), ("ranim_styles", d["nr"])):
       d.setdefault(key, [[] for _ in range(n)])
   return docs
 
 
-def run_history(ad, cat, ops, times):
+def run_history(ad, cat, ops, times, alt=0):
+  """alt: per operation, 0 = default context, 1 = the caller's alternative process context, 2 = that and overlapping other
+  operations (core.AltContext); the SAME operation is observed in different contexts within one history."""
+  from ..core import AltContext
   from ttconv.isd import ISD
   import ttconv.srt.writer as srt_writer
   import ttconv.vtt.writer as vtt_writer
@@ -159,10 +169,11 @@ def run_history(ad, cat, ops, times):
   fp0 = fingerprint(doc)
   sigobj = None
   fps, res, raised, twin = [], [], [], []
-  for op in ops:
+  for opno, op in enumerate(ops):
     r = ""
     bad = 0
     try:
+     with AltContext((alt + opno) % 3 if alt else 0) as ac:
       if op == "sig":
         sigobj = ISD.significant_times(doc)
         r = tok([str(x) for x in sigobj])
@@ -173,11 +184,11 @@ def run_history(ad, cat, ops, times):
       elif op == "seq":
         r = tok([(str(t), snap_token(i)) for t, i in ISD.generate_isd_sequence(doc)])
       elif op == "srt":
-        r = tok(srt_writer.from_model(doc))
+        r = tok(srt_writer.from_model(doc, None, ac.progress))
       elif op == "vtt":
-        r = tok(vtt_writer.from_model(doc))
+        r = tok(vtt_writer.from_model(doc, None, ac.progress))
       elif op == "imsc":
-        r = tok(et.tostring(imsc_writer.from_model(doc).getroot()))
+        r = tok(et.tostring(imsc_writer.from_model(doc, None, ac.progress).getroot()))
     except Exception:  # pylint: disable=broad-except
       bad = 1
     fps.append(fingerprint(doc))
@@ -192,7 +203,7 @@ def _hist_job(args):
   logging.getLogger("ttconv").setLevel(logging.CRITICAL + 10)
   ad, ops, times, rid = args
   cat = catalogue()[0]
-  rec = run_history(ad, cat, ops, times)
+  rec = run_history(ad, cat, ops, times, alt=(1 + rid % 3) if rid % 4 == 1 else 0)
   rec["id"] = rid
   return rec
 
